@@ -68,6 +68,30 @@ def short(name):
     return name.split("::")[-1] if name else name
 
 
+COMMUTATIVE = ("+", "*", "&", "|", "^", "==", "!=")
+
+
+def ckey(t):
+    """like key(), but the operands of commutative operators are put in a canonical order at every level, so that `a + b` and
+    `b + a` (or `x == y` / `y == x`) render the same; use it for *shape* comparisons of side-effect-free expressions"""
+    t = strip(t)
+    if isinstance(t, dict) and t.get("k") == "bin":
+        l, r = ckey(t.get("l")), ckey(t.get("r"))
+        if t.get("op") in COMMUTATIVE and r < l:
+            l, r = r, l
+        return "(%s %s %s)" % (l, t.get("op"), r)
+    if isinstance(t, dict) and t.get("k") == "un":
+        return "%s%s" % (t.get("op"), ckey(t.get("e")))
+    return key(t)
+
+
+def cbin(op, a, b):
+    """ckey-compatible rendering of `a op b` from two already rendered operands"""
+    if op in COMMUTATIVE and b < a:
+        a, b = b, a
+    return "(%s %s %s)" % (a, op, b)
+
+
 def key(t):
     """canonical, position-free rendering of an expression tree"""
     t = strip(t)
@@ -383,6 +407,10 @@ def m_any():
 
 def m_cmp(op, lhs, rhs):
     """normalised comparison leaf: op in ('==','<'); lhs/rhs matchers"""
+    if op == "==":      # equality is symmetric: accept the operands in either order
+        return M(lambda t: strip(t).get("k") == "bin" and strip(t).get("op") == op and
+                 ((lhs(strip(t)["l"]) and rhs(strip(t)["r"])) or (lhs(strip(t)["r"]) and rhs(strip(t)["l"]))),
+                 "(%s %s %s)" % (lhs.desc, op, rhs.desc), M._refs(lhs) | M._refs(rhs))
     return M(lambda t: strip(t).get("k") == "bin" and strip(t).get("op") == op and lhs(strip(t)["l"]) and rhs(strip(t)["r"]),
              "(%s %s %s)" % (lhs.desc, op, rhs.desc), M._refs(lhs) | M._refs(rhs))
 
